@@ -1,66 +1,17 @@
-import PanqecVerif.Model.Bits
-import PanqecVerif.Model.Code
+import Driver.Common
+import Driver.OpsBits
 open Panqec
 
-/-! Line protocol: one operation per input line, one output line per input line. -/
+/-! Line protocol: one operation per input line, one output line per input line.
+    Each `Driver/Ops*.lean` contributes a handler `List String → Option String`
+    (`none` = not my op); the first that answers wins. -/
 
-namespace Drv
-
-def parseVec (s : String) : List Nat :=
-  if s == "-" then []
-  else if s.contains ',' || s.startsWith "v:" then
-    let body := if s.startsWith "v:" then (s.drop 2).toString else s
-    (body.splitOn ",").filterMap fun t => t.toNat?
-  else s.toList.map fun c => c.toNat - '0'.toNat
-
-def parseStack (s : String) : List (List Nat) :=
-  if s == "_" then [] else (s.splitOn "|").map parseVec
-
-def showVec (v : List Nat) : String :=
-  if v.isEmpty then "-"
-  else if v.all (· < 10) then String.ofList (v.map fun d => Char.ofNat (d + '0'.toNat))
-  else "v:" ++ ",".intercalate (v.map toString)
-
-def showStack (m : List (List Nat)) : String :=
-  if m.isEmpty then "_" else "|".intercalate (m.map showVec)
-
-def parseDT (s : String) : DType := if s == "u8" then .u8 else .wide
-
-def showErr : BsErr → String
-  | .oddLength => "ERR odd"
-  | .lengthMismatch => "ERR mismatch"
-
-def parsePaulis (s : String) : Option (List Pauli) :=
-  if s == "-" then some [] else s.toList.mapM Pauli.ofChar?
-
-def showPaulis (ps : List Pauli) : String :=
-  if ps.isEmpty then "-" else String.ofList (ps.map Pauli.toChar)
-
-def handleBits : List String → Option String
-  | ["bsprod", dt, sp, ad, bd, a, b] =>
-    let r := bsProdFull (parseDT dt) (sp == "1") ad.toNat! bd.toNat! (parseStack a) (parseStack b)
-    some (match r with
-      | .error e => showErr e
-      | .ok (shape, data) => s!"{showVec shape} {showVec data}")
-  | ["symp", a, b] => some (toString (symp (parseVec a) (parseVec b)))
-  | ["p2b", p] => some ((parsePaulis p).elim "ERR pauli" fun ps => showVec (pauliToBsf ps))
-  | ["b2p", v] => some (showPaulis (bsfToPauli (parseVec v)))
-  | ["wt", v] => some (toString (bsfWt (parseVec v)))
-  | ["b2i", v] => some (toString (bvectorToInt (parseVec v)))
-  | ["i2b", k, n] => some (showVec (intToBvector k.toNat! n.toNat!))
-  | ["brank", m] => some (toString (brank (parseStack m)))
-  | ["gf2rank", rows] => some (toString (gf2Rank (parseVec rows)))
-  | ["applydef", flags, v] =>
-    some (match applyDeformation ((parseVec flags).map (· != 0)) (parseVec v) with
-      | none => "ERR shape"
-      | some r => showVec r)
-  | _ => none
-
-end Drv
+def handlers : List (List String → Option String) :=
+  [Drv.handleBits]
 
 def handle (line : String) : String :=
   let toks := (line.trimAscii.toString.splitOn " ").filter (· ≠ "")
-  match Drv.handleBits toks with
+  match handlers.findSome? (fun h => h toks) with
   | some r => r
   | none => "bad-op"
 
